@@ -1626,7 +1626,9 @@ class TwoDResponse(TwoDSpectrumBase, Saveable):
         
         twod.set_data_type(dtype)
         self.set_data_flag(dtype)
-        twod.set_data(self.d__data[:,:])
+        # the spectrum gets its own array; what is done to it later
+        # must not change the data stored in this response
+        twod.set_data(numpy.array(self.d__data))
 
         return twod
 
